@@ -693,3 +693,65 @@ spec!(
     forms(p, v): [p.push(v), p.push(v.clone()), p.push(v.as_slice()), arr_owned!(p, v, u32), arr_ref!(p, v, u32)],
     reserve(rp, vs): [rp.reserve_items(vs.iter()), rp.reserve_items(vs.iter().map(|v| v.as_slice()))],
 );
+
+// ---------------------------------------------------------------------------------------------
+// More terminals, a wide tuple, coded regions at depth, the benchmark composition
+// ---------------------------------------------------------------------------------------------
+
+mirror_spec!(MirrorU16, "MirrorRegion<u16>", u16);
+mirror_spec!(MirrorU32, "MirrorRegion<u32>", u32);
+mirror_spec!(MirrorI8, "MirrorRegion<i8>", i8);
+mirror_spec!(MirrorI32, "MirrorRegion<i32>", i32);
+mirror_spec!(MirrorIsize, "MirrorRegion<isize>", isize);
+
+spec!(
+    Tup8, "TupleABCDEFGHRegion<u8,String,i64,Option<String>,Vec<u8>,f64,bool,char>",
+    flatcontainer::impls::tuple::TupleABCDEFGHRegion<MirrorRegion<u8>, StringRegion, MirrorRegion<i64>, OptionRegion<StringRegion>, OwnedRegion<u8>, MirrorRegion<f64>, MirrorRegion<bool>, MirrorRegion<char>>,
+    clone: yes, serde: yes, heap: yes, resreg: yes, copy: yes, debug: yes,
+    dense: no, collapse_top: no, presize: yes, plain: yes,
+    byref(x): x,
+    forms(p, v): [
+        p.push(v),
+        p.push(v.clone()),
+        p.push((v.0, v.1.as_str(), v.2, v.3.as_deref(), v.4.as_slice(), v.5, v.6, v.7)),
+        p.push((&v.0, &v.1, &v.2, &v.3, &v.4, &v.5, &v.6, &v.7)),
+    ],
+    reserve(rp, vs): [rp.reserve_items(vs.iter())],
+);
+
+spec!(
+    SliceHuffU8, "SliceRegion<HuffmanContainer<u8>>", SliceRegion<HuffmanContainer<u8>>,
+    clone: yes, serde: no, heap: no, resreg: no, copy: yes, debug: no,
+    dense: no, collapse_top: no, presize: no, plain: no,
+    byref(x): x,
+    forms(p, v): [p.push(v), p.push(v.clone()), p.push(v.as_slice())],
+    reserve(rp, vs): [],
+);
+
+spec!(
+    PairsHuffU8, "ConsecutiveIndexPairs<HuffmanContainer<u8>>", ConsecutiveIndexPairs<HuffmanContainer<u8>>,
+    clone: yes, serde: no, heap: no, resreg: no, copy: yes, debug: no,
+    dense: yes, collapse_top: no, presize: no, plain: no,
+    byref(x): x,
+    forms(p, v): [p.push(v), p.push(v.clone()), p.push(v.as_slice())],
+    reserve(rp, vs): [],
+);
+
+spec!(
+    OptSliceStr, "OptionRegion<SliceRegion<StringRegion>>", OptionRegion<SliceRegion<StringRegion>>,
+    clone: yes, serde: yes, heap: yes, resreg: yes, copy: yes, debug: yes,
+    dense: no, collapse_top: no, presize: yes, plain: yes,
+    byref(x): x,
+    forms(p, v): [p.push(v), p.push(v.clone()), p.push(v.as_ref()), p.push(v.as_deref())],
+    reserve(rp, vs): [rp.reserve_items(vs.iter())],
+);
+
+spec!(
+    Bench, "SliceRegion<ColumnsRegion<TupleABCRegion<MirrorRegion<u64>,CollapseSequence<OwnedRegion<()>>,CollapseSequence<StringRegion>>>>",
+    SliceRegion<ColumnsRegion<TupleABCRegion<MirrorRegion<u64>, CollapseSequence<OwnedRegion<()>>, CollapseSequence<StringRegion>>>>,
+    clone: yes, serde: yes, heap: yes, resreg: yes, copy: yes, debug: no,
+    dense: no, collapse_top: no, presize: no, plain: yes,
+    byref(x): x,
+    forms(p, v): [p.push(v), p.push(v.clone()), p.push(v.as_slice())],
+    reserve(rp, vs): [],
+);
